@@ -109,6 +109,7 @@ NODE_KINDS = (
     ["add", "sub", "mul", "truediv", "floordiv", "mod", "concat", "addstr"]
     + ["eq", "ne", "lt", "le", "gt", "ge", "is", "isnot", "isdistinct", "isnotdistinct", "isnull", "isnotnull"]
     + ["like", "notlike", "ilike", "notilike", "likeesc", "between", "notbetween"]
+    + ["contains", "startswith", "endswith", "icontains", "notcontains", "notistartswith"]
     + ["and", "or", "not", "notcol", "neg", "case", "casebool", "cast", "coalesce", "and1"]
 )
 
@@ -130,6 +131,12 @@ def mk(kind, ops):
         return [kind, a, b, None]
     if kind == "likeesc":
         return ["like", a, b, "/"]
+    if kind in ("contains", "startswith", "endswith", "icontains"):
+        return [kind, a, b, None]
+    if kind == "notcontains":
+        return ["not", ["contains", a, b, None]]
+    if kind == "notistartswith":
+        return ["not", ["istartswith", a, b, "/"]]
     if kind == "between":
         return ["between", a, b, c]
     if kind == "notbetween":
@@ -154,7 +161,8 @@ def mk(kind, ops):
 
 
 def natural_leaves(kind):
-    if kind in ("concat", "addstr", "like", "notlike", "ilike", "notilike", "likeesc"):
+    if kind in ("concat", "addstr", "like", "notlike", "ilike", "notilike", "likeesc", "contains", "startswith",
+                "endswith", "icontains", "notcontains", "notistartswith"):
         return leafs_for("str")
     if kind in ("and", "or", "not", "notcol", "casebool", "and1"):
         return leafs_for("bool")
